@@ -56,6 +56,7 @@ type Opts struct {
 	MaxBlocks int
 	Profile   val.Profile
 	Dangling  bool // allow links to blocks that do not exist
+	LinkHeavy bool // many links, many of them repeated
 }
 
 func DefaultOpts() Opts {
@@ -81,7 +82,7 @@ func Draw(t *rapid.T, o Opts) Graph {
 			}
 		}
 		if len(pool) > 0 && o.Profile.Links {
-			v = sprinkleLinks(t, v, pool, 0)
+			v = sprinkleLinks(t, v, pool, 0, o.LinkHeavy)
 		}
 		if i == n {
 			g.Root = v
@@ -95,24 +96,28 @@ func Draw(t *rapid.T, o Opts) Graph {
 }
 
 // sprinkleLinks replaces some scalars / appends some entries with links from the pool.
-func sprinkleLinks(t *rapid.T, v val.V, pool []string, depth int) val.V {
+func sprinkleLinks(t *rapid.T, v val.V, pool []string, depth int, heavy bool) val.V {
+	hi := 2
+	if heavy {
+		hi = 1
+	}
 	pick := func() val.V { return val.MkLink(rapid.SampledFrom(pool).Draw(t, "link")) }
 	switch v.K {
 	case val.List:
 		c := val.V{K: val.List, Items: make([]val.V, 0, len(v.Items)+1)}
 		for _, it := range v.Items {
-			c.Items = append(c.Items, sprinkleLinks(t, it, pool, depth+1))
+			c.Items = append(c.Items, sprinkleLinks(t, it, pool, depth+1, heavy))
 		}
-		if rapid.IntRange(0, 2).Draw(t, "addlink") == 0 {
+		if rapid.IntRange(0, hi).Draw(t, "addlink") == 0 {
 			c.Items = append(c.Items, pick())
 		}
 		return c
 	case val.Map:
 		c := val.V{K: val.Map, Ents: make([]val.Ent, 0, len(v.Ents)+1)}
 		for _, e := range v.Ents {
-			c.Ents = append(c.Ents, val.Ent{K: e.K, V: sprinkleLinks(t, e.V, pool, depth+1)})
+			c.Ents = append(c.Ents, val.Ent{K: e.K, V: sprinkleLinks(t, e.V, pool, depth+1, heavy)})
 		}
-		if rapid.IntRange(0, 2).Draw(t, "addlink") == 0 {
+		if rapid.IntRange(0, hi).Draw(t, "addlink") == 0 {
 			k := rapid.SampledFrom([]string{"l", "a", "b", "lnk", "0"}).Draw(t, "linkkey")
 			if _, dup := c.Get(k); !dup {
 				c.Ents = append(c.Ents, val.Ent{K: k, V: pick()})
@@ -120,7 +125,7 @@ func sprinkleLinks(t *rapid.T, v val.V, pool []string, depth int) val.V {
 		}
 		return c
 	default:
-		if depth > 0 && rapid.IntRange(0, 3).Draw(t, "tolink") == 0 {
+		if depth > 0 && rapid.IntRange(0, hi+1).Draw(t, "tolink") == 0 {
 			return pick()
 		}
 		return v
@@ -190,12 +195,15 @@ func Seg(v val.V, seg string) (val.V, bool) {
 func Resolve(root val.V, store map[string]val.V, path []string, derefLast bool) (val.V, error) {
 	cur := root
 	for i, s := range path {
+		if cur.K != val.Map && cur.K != val.List {
+			return val.V{}, fmt.Errorf("segment %d (%q): a scalar was reached early", i, s)
+		}
 		next, ok := Seg(cur, s)
 		if !ok {
 			return val.V{}, fmt.Errorf("segment %d (%q) does not exist", i, s)
 		}
 		cur = next
-		if cur.K == val.Link && (i < len(path)-1 || derefLast) {
+		for cur.K == val.Link && (i < len(path)-1 || derefLast) {
 			b, ok := store[cur.S]
 			if !ok {
 				return val.V{}, fmt.Errorf("segment %d (%q): link target missing", i, s)
@@ -204,6 +212,33 @@ func Resolve(root val.V, store map[string]val.V, path []string, derefLast bool) 
 		}
 	}
 	return cur, nil
+}
+
+// LenientIndex reports whether resolving path on this graph applies a numeric string that is
+// not in canonical base-10 form ("02", "+2", "-0") to a list: the data model leaves open
+// whether such a segment addresses an element.
+func LenientIndex(root val.V, store map[string]val.V, path []string) bool {
+	cur := root
+	for _, s := range path {
+		if cur.K == val.List {
+			if i, err := strconv.ParseInt(s, 10, 64); err == nil && strconv.FormatInt(i, 10) != s {
+				return true
+			}
+		}
+		next, ok := Seg(cur, s)
+		if !ok {
+			return false
+		}
+		cur = next
+		for cur.K == val.Link {
+			b, ok := store[cur.S]
+			if !ok {
+				return false
+			}
+			cur = b
+		}
+	}
+	return false
 }
 
 // Children lists the (segment, value) pairs of a container in its own order.
